@@ -6,6 +6,37 @@ from checks import semcommon
 PROP = "C15"
 
 
+KF_DUP = "C15-key-shortcut-example-equals-another-key"
+KF_DUP_TEXT = ("Example() writes the same key twice when the example of a key-shortcut type is also a named key of the object (or the example of "
+               "another key-shortcut type of it): {\"a\": 2, @KE2: 1} with @KE2 = \"a\" // {enum: [\"a\", \"b\"]} gives {\"a\":2,\"a\":1}, which the "
+               "schema rejects; notations/jschema/example.go buildObjectKey always takes the key type's own example")
+
+
+def dup_key_signature(node, env):
+    """the recorded finding's shape: an object one of whose key shortcuts has a string type whose example is a named key of the
+    same object or the example of another of its key shortcuts"""
+    types = {t["name"]: t["n"] for t in env.get("types", [])}
+
+    def key_example(tname):
+        n = types.get(tname)
+        if n and n.get("t") == "lit" and n["v"].get("t") == "str":
+            return tuple(n["v"].get("c") or [])
+        return None
+
+    def walk(n):
+        if n.get("t") == "obj":
+            named = [tuple(p["k"]) for p in n.get("props", []) if not p.get("sc")]
+            shorts = [key_example(p["kt"]) for p in n.get("props", []) if p.get("sc")]
+            shorts = [x for x in shorts if x is not None]
+            if any(x in named for x in shorts) or len(set(shorts)) < len(shorts):
+                return True
+            return any(walk(p["n"]) for p in n.get("props", []))
+        if n.get("t") == "arr":
+            return any(walk(i) for i in n.get("items", []))
+        return False
+    return walk(node) or any(walk(t) for t in types.values())
+
+
 def run(tier, argv):
     rep = vlib.Report(PROP, tier)
     work = vlib.Work(PROP)
@@ -62,6 +93,20 @@ def run(tier, argv):
             bad.append({"what": "rejected-by-its-own-Validate", "schema": e["text"], "out": e.get("out"), "error": None, "abstract": e["schema"], "env": e["env"]})
         if e.get("error"):
             bad.append({"what": "error", "schema": e["text"], "out": None, "error": e["error"], "abstract": e["schema"], "env": e["env"]})
+    # the recorded finding: attributed by its shape, everything else stays a violation
+    kf = {f["id"] for f in vlib.known_findings(PROP) if f["status"] == "known"}
+    kept, seen_dup = [], 0
+    for b in bad:
+        if KF_DUP in kf and b["what"] in ("duplicate-keys", "rejected-by-its-own-Validate") and dup_key_signature(b["abstract"], b["env"]) \
+                and b.get("out") and _has_dup_keys(b["out"]):
+            seen_dup += 1
+            continue
+        kept.append(b)
+    bad = kept
+    if seen_dup:
+        rep.known(KF_DUP, KF_DUP_TEXT, seen_dup)
+    elif KF_DUP in kf:
+        rep.drift.append("the recorded finding %s was not observed" % KF_DUP)
     for b in semcommon.diff_tier(work, rep, hbin, PROP, 30000 if quick else 1000000):
         bad.append({"what": b["want"] + " (differs from the frozen copy)", "schema": b["schema"], "out": b.get("doc"), "error": None, "abstract": b["abstract"], "env": b["env"]})
     for e in lines[:: max(1, len(lines) // 6)]:
@@ -72,6 +117,21 @@ def run(tier, argv):
     rep.cov["rule"] = ("Example() of every Check-accepted schema of the GenTypes / GenRules / GenShape / GenExample domains and of every accepted type graph of the GenGraph family; TLC runs the RFC 8259 "
                        "recogniser over the returned bytes, Sem!Verdict on the parsed value, and for plain-JSON schemas equality with the example and absence of blanks")
     return rep, bad
+
+
+def _has_dup_keys(text):
+    dup = []
+
+    def hook(pairs):
+        ks = [k for k, _ in pairs]
+        if len(set(ks)) < len(ks):
+            dup.append(1)
+        return dict(pairs)
+    try:
+        json.loads(text, object_pairs_hook=hook)
+    except ValueError:
+        return False
+    return bool(dup)
 
 
 def finish(rep, bad):
